@@ -245,3 +245,18 @@ prop("C09", level="exploration",
            "request was still live; distinct by case. distinct_sets.injected_kinds = distinct (extension behaviour, status) combinations injected."),
      min_nontrivial=dict(quick=200, thorough=2500),
      assumptions=_fs_assume)
+
+prop("C10", level="exploration",
+     stages=[dict(pkg="fullstack", test="TestC10", sub="crosspeer", race=True, vary_gomaxprocs=True,
+                  cases=dict(quick=500, thorough=6000), timeout=3600)],
+     technique="runtime monitoring: differential check of the victim's wire stream and listener notifications against reference model 2 while a second scripted peer sends Cancel/Update/New with the victim's request id at constructed lifecycle points (fabric gates, store gates, hook pauses); Go race detector",
+     level_text=("Raw peer A's request is served by a real responder; raw peer X sends a Cancel, an Update (plain / asking to unpause / making the update "
+                 "hook fail) or a New request (same or other root) carrying A's request id while A's response is queued (single worker held at a store "
+                 "gate), running (held at a store gate), paused (outgoing-block hook) or after the j-th response message. A's received metadata, blocks and "
+                 "final status must equal the responder's own traversal exactly, A must receive no extension data caused by X, and the completed / "
+                 "cancelled listeners must report exactly one completion with the wire status for (A, id)."),
+     level_note="The update hook registered on the responder reacts to the verification extension like a real consumer (unpause / terminate / answer).",
+     rule=("One evaluation = one (DAG, store, selector, lifecycle point, attack kind) scenario. Non-trivial = the attacker's message was actually sent at the "
+           "constructed point; distinct by case; distinct_sets.point_x_attack = distinct (lifecycle point, attack kind) pairs exercised (24 possible)."),
+     min_nontrivial=dict(quick=150, thorough=2000),
+     assumptions=_fs_assume)
